@@ -291,3 +291,90 @@ def subseq_fractional(k: int, j: int) -> bool:
     a, b = k / 4, j / 4
     ra, rb = (2 * k + 4) // 8, (2 * j + 4) // 8       # floor(x + 1/2) for x = k/4
     return ev(T['subseq'], S=S, a=a, b=b) == [v for p, v in enumerate(S, 1) if ra <= p < ra + rb]
+
+
+# --- E2: index arithmetic of fn:subsequence for all rational arguments ------------------------------------------------------
+
+import z3  # noqa: E402
+from verif_lib import py2smt as PS  # noqa: E402
+from harness.e2util import Queries, mval  # noqa: E402
+from harness.common import P31  # noqa: E402
+
+
+def _subsequence_e2(nargs):
+    q = Queries(timeout_s=60, diff_binary=False)
+    cls = P31.symbol_table['subsequence']
+    pyfn = getattr(cls.select, '__func__', cls.select)
+    a, b = z3.Real('a'), z3.Real('b')
+
+    def get_argument(fn, context, index=0, default=None, cls=None, required=False):
+        return {1: PS.Sym(a, float), 2: PS.Sym(b, float)}[index]
+    me = PS.Obj('self', dict(context=None), length=nargs)
+    try:
+        r = PS.translate(pyfn, [me, None], stubs={'self.get_argument': get_argument, 'self[0].select': lambda fn, ctx: PS.Obj('items')},
+                         procedure=True)
+    except PS.Unsupported as e:
+        return q.result(not_encodable=str(e))
+    fn = r['fn']
+    if len(r['loop_positions']) < 1 or not r['yields']:
+        return q.result(not_encodable='no loop / yield found in select__subsequence')
+    cex = []
+    # every loop of the function enumerates the same input sequence from 1: quantify over one position p
+    p = z3.Int('p')
+    subs = [(lp, p) for lp in r['loop_positions']]
+    yielded = z3.Or(*[z3.substitute(c, *subs) for c, _ in r['yields']])
+    ra = fn.floor(a + z3.RealVal('1/2'))
+    if nargs == 3:
+        rb = fn.floor(b + z3.RealVal('1/2'))
+        want = z3.And(ra <= p, p < ra + rb)
+    else:
+        want = ra <= p
+    base = [z3.substitute(c, *subs) for c in fn.side] + [p >= 1]
+    res, m0 = q.check('reach', base + [yielded], expect='sat')
+    q.sat = []
+    if m0 is not None:
+        q.samples.append('a=%s b=%s p=%s' % (mval(m0, a), mval(m0, b), mval(m0, p)))
+    q.check('never raises', base + [r['raised']])
+    res, m = q.check('item at position p is selected iff round(a) <= p < round(a)+round(b)', base + [yielded != want])
+    if res == 'sat':
+        # prefer a small witness for the replay (the unsat claim above is unbounded; this only shrinks the counterexample)
+        res2, m2 = q.check('small witness', base + [yielded != want, a >= -8, a <= 8, b >= -8, b <= 8, p <= 16], expect='sat')
+        q.sat = [x for x in q.sat if x[0] != 'small witness']
+        if m2 is not None:
+            m = m2
+        cex.append(dict(call='replay_subsequence(%r, %r, %d)' % (str(mval(m, a)), str(mval(m, b)) if nargs == 3 else None, nargs),
+                        message='subsequence differs from F&O at a=%s b=%s p=%s' % (mval(m, a), mval(m, b), mval(m, p))))
+    return q.result(cex, detail=dict(stubs=sorted(set(r['notes']))))
+
+
+def replay_subsequence(a_s, b_s, nargs):
+    from fractions import Fraction
+    import math as _m
+    a = Fraction(a_s)
+    fa = a.numerator / a.denominator
+    if Fraction(fa) != a:
+        return True
+    ra = _m.floor(a + Fraction(1, 2))
+    if ra >= 200000:
+        return True                     # replay window too large: reported as not reproduced
+    S = list(range(1, max(ra, 1) + 12))
+    if nargs == 3:
+        b = Fraction(b_s)
+        fb = b.numerator / b.denominator
+        if Fraction(fb) != b:
+            return True
+        rb = _m.floor(b + Fraction(1, 2))
+        return ev(T['subseq'], S=S, a=fa, b=fb) == [v for p, v in enumerate(S, 1) if ra <= p < ra + rb]
+    return ev(T['subseq2'], S=S, a=fa) == [v for p, v in enumerate(S, 1) if ra <= p]
+
+
+@ob(engine='z3', budget=120, bound='all rational start and length, all positions p >= 1 (three-argument form)',
+    funcs=[F2 + ':select__subsequence', 'elementpath/helpers.py:round_number'])
+def e2_subsequence3(ctx):
+    return _subsequence_e2(3)
+
+
+@ob(engine='z3', budget=120, bound='all rational start, all positions p >= 1 (two-argument form)',
+    funcs=[F2 + ':select__subsequence', 'elementpath/helpers.py:round_number'])
+def e2_subsequence2(ctx):
+    return _subsequence_e2(2)
